@@ -517,10 +517,7 @@ def ref_store_load(kernel, isa):
                         if lm["index"]:
                             const += li[1] * lm["scale"]
                         verdict = const == saddr_const
-                    if own_wb and base_overwritten:
-                        # the real search gives up when the base of a write-back store is written again: not judged
-                        dontcare.add((a, b))
-                    elif verdict:
+                    if verdict:
                         edges.add((a, b))
                 # a later store to the same operand ends the search
                 stop = any("d" in m["role"] and same_operand(m, sm) for m in B["mems"])
